@@ -338,6 +338,10 @@ def run(ctx):
     # every formatter function against its reviewed emission skeleton
     import emit as _emit
     _emit.rule_F_SKELETON_ALL(ctx)
+    import lskel as _lskel
+    _lskel.rule_L_SKELETON(ctx, which=('term',), floor=10)
+    import maps as _mb
+    _mb.rule_M_BINFILL(ctx)
     ctx.undecided = ["that parsed and original values compare equal for all values (depends on C06 and on run-time data)",
                      "nesting-dependent ambiguity; name well-formedness side conditions"]
     ctx.assumptions = ["f64 Display emits only digits and '.' for finite values in [0,1] (std guarantee)",
